@@ -313,6 +313,54 @@ def interrupted_send(chk, xvc, name, limit_blocks):
     return fails
 
 
+def failing_bring(chk, xvc, name, limit_blocks, sigmode):
+    """The transfer fails in the middle on the RECEIVING side: `xvc file bring` runs with a file size limit, so the copy out
+    of the storage is cut short - with SIGXFSZ ignored the write fails with EFBIG (like a full disk or a quota), otherwise
+    the process is killed.  Oracle: whatever the exit status, afterwards every file is byte-identical or absent and no
+    wrong or partial object sits at a cache address; bringing again without the limit delivers everything."""
+    fails = []
+    base = os.path.join(chk.scratch, 'c06', name)
+    A = Sandbox(base, 'A', xvc); A.init()
+    import random as _r
+    rng = _r.Random(chk.seed * 17 + limit_blocks)
+    big = bytes(rng.getrandbits(8) for _ in range(300_000)) * 8          # 2.4 MB
+    files = {'big.bin': big, 'small.txt': b'small\n', 'big2.dat': big[:1_000_000] + b'tail'}
+    for p, b in files.items(): A.write(p, b)
+    algo = rng.choice(['blake3', 'sha2', 'sha3', 'blake2'])
+    cargs = ['-c', f'cache.algorithm={algo}']
+    A.x(*(cargs + ['file', 'track', '--text-or-binary', 'binary'] + list(files)))
+    sdir = os.path.join(base, 'storage')
+    A.x('storage', 'new', 'local', '--name', 'st', '--path', sdir)
+    A.x(*(cargs + ['file', 'send', '--to', 'st'] + list(files)))
+    A.git('add', '-A'); A.git('commit', '-q', '-m', 'all', '--allow-empty')
+    B = Sandbox(base, 'B', xvc)
+    shutil.rmtree(B.root)
+    B.run(['git', 'clone', '-q', A.root, B.root], cwd=base)
+    tmpd = os.path.join(base, 'tmp'); os.makedirs(tmpd, exist_ok=True)
+    trap = "trap '' XFSZ; " if sigmode == 'efbig' else ''
+    r, o, e = B.run(['bash', '-c', f'{trap}ulimit -f {limit_blocks}; exec "$0" ' + ' '.join(cargs) + ' file bring --from st ' + ' '.join(files), xvc], env={'TMPDIR': tmpd})
+    chk.count(f'failing-bring:{sigmode}:rc={r}')
+    ob = Obs(B)
+    for p, want in files.items():
+        got = rc.read_through(ob, p)
+        if got is not None and got != want:
+            fails.append((f'bring cut short at {limit_blocks} KiB ({sigmode}, rc={r}) delivered {len(got)} wrong/partial bytes for {p} (expected {len(want)} or nothing)',
+                          {'kind': 'partial-file-after-failing-bring', 'mode': sigmode}))
+    fake = [{'i': 0, 'cmd': {'op': 'bring', 'targets': list(files)}, 'rc': r, 'pre': None, 'post': ob}]
+    for msg, sig in rc.o1_content_addressed(fake, {}, []):
+        if sig['kind'] in ('address-mismatch', 'object-is-symlink'):
+            fails.append((f'after a bring cut short at {limit_blocks} KiB ({sigmode}, rc={r}): ' + msg, dict(sig, mode=sigmode)))
+    r2, _, e2 = B.x(*(cargs + ['file', 'bring', '--from', 'st'] + list(files)), env={'TMPDIR': tmpd})
+    ob2 = Obs(B)
+    if r2 == 0:
+        for p, want in files.items():
+            if rc.read_through(ob2, p) != want:
+                fails.append((f'after a bring cut short ({sigmode}) and a second, unlimited bring (rc 0), {p} is not byte-identical', {'kind': 'second-bring-does-not-repair', 'mode': sigmode}))
+    B.cleanup(); A.cleanup()
+    shutil.rmtree(base, ignore_errors=True)
+    return fails
+
+
 def run(chk):
     quick = chk.tier == 'quick'
     model = chk.lean('XvcRepo', 'XvcRepo.Props.C06', exe='repomodel', extra_modules=['XvcRepo.Model', 'XvcRepo.Storage'])
@@ -378,10 +426,20 @@ def run(chk):
             fl = [('harness error: ' + traceback.format_exc()[-600:], {'kind': 'harness-error'})]
         for msg, sig in fl:
             chk.oracle_failure(msg, {'scenario': 'interrupted-send', 'ulimit_f_blocks': blocks}, None, signature=sig)
+    for j, (blocks, mode) in enumerate([(256, 'efbig'), (1500, 'efbig'), (256, 'kill')] if quick else [(256, 'efbig'), (1500, 'efbig'), (64, 'efbig'), (1, 'efbig'), (3000, 'efbig'), (256, 'kill'), (1500, 'kill')]):
+        chk.evaluations += 1
+        chk.nontrivial.add(f'failing-bring-{blocks}-{mode}')
+        try:
+            fl = failing_bring(chk, xvc, f'fb{j}', blocks, mode)
+        except Exception:
+            import traceback
+            fl = [('harness error: ' + traceback.format_exc()[-600:], {'kind': 'harness-error'})]
+        for msg, sig in fl:
+            chk.oracle_failure(msg, {'scenario': 'failing-bring', 'ulimit_f_blocks': blocks, 'mode': mode}, None, signature=sig)
     chk.extra['rule'] = (f'{n} scenarios, alternating local / generic storage: 2-4 files from the content classes (duplicates allowed) tracked in A with a random algorithm and method; '
                          'a random subset sent (generic: random upload failures), sent again; with p=.5 a second repository with another guid sends the same content to the same storage; '
                          'then either a git clone B of A or A itself with cache and workspace removed brings a random subset (generic: each download ok / fails cleanly / fails leaving a partial temp file), '
-                         'TMPDIR default or /dev/shm (another file system), random --recheck-as; brought again; plus interrupted local sends (killed by SIGXFSZ at several sizes) followed by bring in a clone, before and after repeating the send. Every scenario is distinct (seeded) and non-trivial (>= 1 object transferred or refused).')
+                         'TMPDIR default or /dev/shm (another file system), random --recheck-as; brought again; plus interrupted local sends (killed by SIGXFSZ at several sizes) followed by bring in a clone, before and after repeating the send; plus brings from a local storage cut short on the receiving side by a file size limit (write fails with EFBIG, or the process is killed), then repeated without the limit. Every scenario is distinct (seeded) and non-trivial (>= 1 object transferred or refused).')
     return chk.finish()
 
 
